@@ -149,4 +149,44 @@ Theorem C10_bounds_from_check :
   run_bounds W (mk_lviews infos lines) m SW LV IB CB (fun k : nat => nth k spanl 0).
 Proof. exact run_bounds_of_check. Qed.
 
+(* FILE LEVEL: for a whole token vector and line list, two settings that differ in the widths of the two whitespace units (and in
+   any string of the reconstruction settings): if max_line_length is at least unconstrained_bound (an executable function of the
+   file and the two widths; run_bounds_file: it always satisfies the side conditions) the final token vectors - every counter
+   f_nl, f_ind, f_cont, f_sp of every token - are EQUAL, and so are the decisions up to the measured length.  First phase for every
+   file; both phases for files without multi-line string literals (with them the set of reflowed lines depends on the settings
+   strings: left to the pairwise oracle) *)
+From PasfmtVerif Require Import Model.WrapContexts Model.WrapSearch Model.WrapFormat Proofs.WrapSearchProofs Proofs.WrapWidthFree Proofs.WrapSimProofs Proofs.WrapUnconstrainedProofs Proofs.WrapWidthIndependence Proofs.WrapFileProofs Proofs.WrapReadsProofs Proofs.WrapSoundTransferProofs.
+Theorem C10_file_counters_independent_of_indentation_widths :
+  forall (rsA rsB : rsettings) (WA WB : wsettings) (lines : list lline) (l : list ftoken),
+  w_iter WA = w_iter WB ->
+  w_bbb WA = w_bbb WB ->
+  parents_ok lines = true ->
+  unconstrained_bound (map tokinfo_of l) lines (w_indw WA) (w_contw WA) <= w_max WA ->
+  unconstrained_bound (map tokinfo_of l) lines (w_indw WB) (w_contw WB) <= w_max WB ->
+  fst (fst (olf_model rsA WA false lines l)) = fst (fst (olf_model rsB WB false lines l)) /\
+  map ev_erase (filter WrapEventsProofs.is_D (snd (fst (olf_model rsA WA false lines l)))) =
+  map ev_erase (filter WrapEventsProofs.is_D (snd (fst (olf_model rsB WB false lines l)))).
+Proof. exact olf_model_phase1_indep. Qed.
+
+Theorem C10_file_counters_independent_both_phases_no_ml :
+  forall (rsA rsB : rsettings) (WA WB : wsettings) (lines : list lline) (l : list ftoken),
+  w_iter WA = w_iter WB ->
+  w_bbb WA = w_bbb WB ->
+  parents_ok lines = true ->
+  no_ml l ->
+  unconstrained_bound (map tokinfo_of l) lines (w_indw WA) (w_contw WA) <= w_max WA ->
+  unconstrained_bound (map tokinfo_of l) lines (w_indw WB) (w_contw WB) <= w_max WB ->
+  fst (fst (olf_model rsA WA true lines l)) = fst (fst (olf_model rsB WB true lines l)) /\
+  map ev_erase (filter WrapEventsProofs.is_D (snd (fst (olf_model rsA WA true lines l)))) =
+  map ev_erase (filter WrapEventsProofs.is_D (snd (fst (olf_model rsB WB true lines l)))).
+Proof. exact olf_model_indep_no_ml. Qed.
+
+Theorem C10_file_bound_holds :
+  forall (W : wsettings) (infos : list tokinfo) (lines : list lline),
+  parents_ok lines = true ->
+  let lvs := mk_lviews infos lines in
+  run_bounds W lvs (file_m lvs) (file_SW lvs) (file_LV lvs) (file_IB lvs) 
+    (file_CB lvs) (file_span lvs).
+Proof. exact run_bounds_file. Qed.
+
 
